@@ -7,6 +7,7 @@ import (
 	"go/ast"
 	"go/token"
 	"go/types"
+	"math/big"
 	"os"
 	"path/filepath"
 	"sort"
@@ -154,7 +155,31 @@ func LoadWorld(repo, root string) (*World, error) {
 			return nil, err
 		}
 	}
+	markNamingBase()
 	return w, nil
+}
+
+// Naming base: constants and objects made while loading keep their numbers; every function (behaviour, lemma) is then
+// generated with the counters restarted from here, so that the text of its queries does not depend on which other
+// functions were generated before it in the same run (a solver's verdict must not change with an edit elsewhere).
+var freshBase, objBase int
+var constBoundsBase map[*Term][2]*big.Int
+
+func markNamingBase() {
+	freshBase, objBase = freshCtr, objCtr
+	constBoundsBase = make(map[*Term][2]*big.Int, len(constBounds))
+	for k, v := range constBounds {
+		constBoundsBase[k] = v
+	}
+}
+
+func restartNaming() {
+	freshCtr, objCtr = freshBase, objBase
+	constBounds = make(map[*Term][2]*big.Int, len(constBoundsBase))
+	for k, v := range constBoundsBase {
+		constBounds[k] = v
+	}
+	boundCache = map[*Term][2]*big.Int{}
 }
 
 // funcKey gives the contract key of an SSA function: "pkg.Name", "pkg.(*T).Name" or "pkg.(T).Name".
